@@ -26,6 +26,7 @@ RULE = ('cases = (a) score matrices over the value grid {0.1,0.4,0.7,0.9} for 2.
         'random coefficient matrices, refined by optimize_prec_assignment.  Non-trivial: a target '
         'vector different from the current arg-max counts (a) / a model in which the refinement '
         'changed at least one layer (c); distinct = hash of (scores, targets) / (model, coeffs).')
+RULE += ('  Round 3: end-to-end cases with 33..72-channel layers; a wrapper on _compute_cost records every configuration the refinement evaluates and the applied one must be a cheapest of them.')
 ASSUMPTIONS = [
     'bit-widths before / after are read from summary() (arg-max of the raw coefficients)',
     'the counts "the refinement chose" are the targets handed to the reassignment step, observed '
@@ -118,8 +119,8 @@ def worker_setup(ctx):
     import plinio.methods.mps.utils as U
     orig = U._reassign_precisions
 
-    def monitored(best, scores):
-        res = orig(best, scores)
+    def monitored(best, scores, *args, **kwargs):
+        res = orig(best, scores, *args, **kwargs)
         ctx.mon('c20.reassign_insitu')
         w = oracle_reassign(ctx, best.detach().clone(), scores.detach().clone(),
                             res.detach().clone(), 'insitu')
@@ -255,7 +256,8 @@ def run_e2e(case, ctx):
     from plinio.methods.mps.utils import optimize_prec_assignment
     rng = random.Random(case['seed'])
     prog = ne16_program(rng, wide=bool(case.get('wide')))
-    w_prec = rng.choice([(2, 4, 8), (8, 4, 2), (4, 8), (2, 8)])
+    # (incl. orders whose sorting permutation is not its own inverse: (4, 8, 2), (8, 2, 4))
+    w_prec = rng.choice([(2, 4, 8), (8, 4, 2), (4, 8), (2, 8), (4, 8, 2), (8, 2, 4), (8, 2)])
     if case['zero']:
         w_prec = (0,) + tuple(w_prec)
     try:
